@@ -117,6 +117,27 @@ func (e *Engine) registryAccesses() []regAccess {
 			}
 			f, base := loadedField(m)
 			if f == nil || base == nil || namedOf(base.Type()) != nt {
+				// the registry may be chosen by a helper (kind ↦ map): one access per map the helper can hand back, with the
+				// kind that governs that return
+				var hc *ssa.Call
+				switch x := strip(m).(type) {
+				case *ssa.Call:
+					hc = x
+				case *ssa.Extract:
+					if x.Index == 0 {
+						hc, _ = x.Tuple.(*ssa.Call)
+					}
+				}
+				if hc == nil || hc.Call.StaticCallee() == nil || e.fnRole(hc.Call.StaticCallee()) != "interp" {
+					return
+				}
+				for _, r := range returnsOf(hc.Call.StaticCallee()) {
+					rf, rbase := loadedField(retVals(r)[0])
+					if rf == nil || rbase == nil || namedOf(rbase.Type()) != nt {
+						continue
+					}
+					out = append(out, regAccess{fn: fn, in: in, field: rf.Name(), write: write, key: e.parseRegistryKey(k), kind: kindAt(r.Block())})
+				}
 				return
 			}
 			out = append(out, regAccess{fn: fn, in: in, field: f.Name(), write: write, key: e.parseRegistryKey(k), kind: kindAt(in.Block())})
@@ -314,7 +335,10 @@ func c20R3(e *Engine) {
 	}
 	// getMatcher miss
 	for _, fn := range e.funcs("interp") {
-		if fn.Signature.Results().Len() == 2 && strings.Contains(typeName(fn.Signature.Results().At(0).Type()), "MatcherFunc") {
+		if fn.Signature.Results().Len() != 2 {
+			continue
+		}
+		if nt, isNamed := fn.Signature.Results().At(0).Type().(*types.Named); fn.Signature.Results().Len() == 2 && isNamed && nt.Obj().Name() == "MatcherFunc" && isErrorType(fn.Signature.Results().At(1).Type()) {
 			ok := false
 			for _, r := range returnsOf(fn) {
 				if v := retVals(r)[1]; !isNilConst(v) {
@@ -483,42 +507,67 @@ func c20R5(e *Engine) {
 			}
 			allocs[al][fieldOf(fa).Name()] = st.Val
 		})
-		i := 0
 		for al, fields := range allocs {
-			i++
-			n++
-			kind := ""
-			if v, ok := fields["ExpressionType"]; ok {
-				kind, _ = constString(v)
-			}
-			construct := fmt.Sprintf("%s:%s", e.fname(fn), strings.TrimPrefix(typeName(al.Type()), "*interpreter."))
-			if kind != "" {
-				construct += "[" + kind + "]"
-			}
-			var bad []string
-			tnO := e.origins(fields["TableName"])
-			if len(tnO) != 1 || tnO[0] != "field:Table.Name" {
-				bad = append(bad, "TableName ← "+strings.Join(tnO, "|")+" (want Table.Name)")
-			}
-			exO := strings.Join(e.origins(fields["Expression"]), "|")
-			if kind != "" {
-				if want := pair[kind]; want == "" || !strings.Contains(exO, "QueryInput."+want) {
-					bad = append(bad, fmt.Sprintf("kind %q is paired with expression %s (want QueryInput.%s)", kind, exO, want))
+			// calling contexts: where kind or expression is a parameter of this function (a shared helper), every caller
+			// is a site of its own
+			ctxs := [][]callCtx{nil}
+			needsCaller := false
+			for _, f := range []string{"ExpressionType", "Expression"} {
+				if v, ok := fields[f]; ok {
+					if _, isP := strip(v).(*ssa.Parameter); isP {
+						needsCaller = true
+					}
 				}
-			} else if strings.HasSuffix(typeName(al.Type()), "UpdateInput") {
-				if !strings.Contains(exO, "UpdateItemInput.UpdateExpression") {
-					bad = append(bad, "Expression ← "+exO+" (want UpdateItemInput.UpdateExpression)")
+			}
+			if needsCaller {
+				ctxs = nil
+				for _, c := range e.callersOf(fn) {
+					ctxs = append(ctxs, []callCtx{{c, fn}})
 				}
-			} else {
-				bad = append(bad, "MatchInput without a constant ExpressionType")
 			}
-			if _, ok := fields["Item"]; !ok {
-				bad = append(bad, "Item not set")
-			}
-			if len(bad) > 0 {
-				e.fail("R5", construct, e.pos(al.Pos()), "%s", strings.Join(bad, "; "))
-			} else {
-				e.pass("R5", construct, e.pos(al.Pos()), "TableName ← Table.Name; Expression ← %s", exO)
+			for _, ctx := range ctxs {
+				n++
+				site := fn
+				pos := e.pos(al.Pos())
+				if len(ctx) > 0 {
+					site = ctx[0].call.Parent()
+					pos = e.ipos(ctx[0].call)
+				}
+				kind := ""
+				if v, ok := fields["ExpressionType"]; ok {
+					if ks := e.constStringsOf(v, ctx, 0); len(ks) == 1 {
+						kind = ks[0]
+					}
+				}
+				construct := fmt.Sprintf("%s:%s", e.fname(site), strings.TrimPrefix(typeName(al.Type()), "*interpreter."))
+				if kind != "" {
+					construct += "[" + kind + "]"
+				}
+				var bad []string
+				tnO := e.originsCtx(fields["TableName"], ctx)
+				if len(tnO) != 1 || tnO[0] != "field:Table.Name" {
+					bad = append(bad, "TableName ← "+strings.Join(tnO, "|")+" (want Table.Name)")
+				}
+				exO := strings.Join(e.originsCtx(fields["Expression"], ctx), "|")
+				if kind != "" {
+					if want := pair[kind]; want == "" || !strings.Contains(exO, "QueryInput."+want) {
+						bad = append(bad, fmt.Sprintf("kind %q is paired with expression %s (want QueryInput.%s)", kind, exO, want))
+					}
+				} else if strings.HasSuffix(typeName(al.Type()), "UpdateInput") {
+					if !strings.Contains(exO, "UpdateItemInput.UpdateExpression") {
+						bad = append(bad, "Expression ← "+exO+" (want UpdateItemInput.UpdateExpression)")
+					}
+				} else {
+					bad = append(bad, "MatchInput without a constant ExpressionType")
+				}
+				if _, ok := fields["Item"]; !ok {
+					bad = append(bad, "Item not set")
+				}
+				if len(bad) > 0 {
+					e.fail("R5", construct, pos, "%s", strings.Join(bad, "; "))
+				} else {
+					e.pass("R5", construct, pos, "TableName ← Table.Name; Expression ← %s", exO)
+				}
 			}
 		}
 	}
